@@ -34,8 +34,8 @@ func init() {
 			"a valid answer must return signature, algorithm, certificate and timestamp equal to the stored object (read back from the raw store). Write-once: after every message, including re-publishes of the same key with other / empty values before and after a commit, every link first stored under a key is still there unchanged and the overwriting publish was refused. " +
 			"Non-trivial: >=1 record verified valid before its mutations and >=1 overwrite attempt refused. Distinct by generated keys/ids.",
 		Assumptions:   []string{"the signature module's message service is not registered on this tree; its real message server is driven on a branched deliver-state context (see DESIGN.md §1.3)", "key generation uses crypto/rand: byte-level inputs differ between runs, verdicts do not"},
-		Cases:         func(t string) int { return tierN(t, 96, 4000) },
-		MinNontrivial: func(t string) int { return tierN(t, 20, 2000) },
+		Cases:         func(t string) int { return tierN(t, 192, 4000) },
+		MinNontrivial: func(t string) int { return tierN(t, 40, 2000) },
 		Run:           runC15,
 	})
 }
